@@ -339,6 +339,51 @@ def label_assignment(ctx, labels):
     return {l: f'{i:02d}_{l}' for i, l in enumerate(out)}
 
 
+# ---------------------------------------------------------------- module state hygiene between paths
+_STATE = {}
+
+
+def _containers():
+    import sys, types
+    for name, mod in list(sys.modules.items()):
+        if not name.startswith('CircuitCalculator') or mod is None: continue
+        for k, v in list(vars(mod).items()):
+            if k.startswith('__'): continue
+            if isinstance(v, (dict, list, set)):
+                yield (name, k), v
+            elif isinstance(v, types.FunctionType) and v.__module__ == name:
+                for i, dflt in enumerate(v.__defaults__ or ()):
+                    if isinstance(dflt, (dict, list, set)): yield (name, k, 'default', i), dflt
+            elif isinstance(v, type) and v.__module__ == name:
+                for ck, cv in list(vars(v).items()):
+                    if isinstance(cv, (dict, list, set)) and not ck.startswith('__'): yield (name, k, ck), cv
+                    if isinstance(cv, types.FunctionType):
+                        for i, dflt in enumerate(cv.__defaults__ or ()):
+                            if isinstance(dflt, (dict, list, set)): yield (name, k, ck, 'default', i), dflt
+
+
+def capture_module_state():
+    """remember the contents of every module-level container / mutable default of the repository (first sight wins)"""
+    for key, obj in _containers():
+        if key not in _STATE:
+            _STATE[key] = (obj, type(obj)(obj))
+
+
+def reset_module_state():
+    """restore those contents: symbolic paths must not see objects that an earlier path (a dead solver context) left behind in a
+    repository cache; state that an operation leaves behind WITHIN one path is still visible to that path's obligations"""
+    capture_module_state()
+    for key, (obj, saved) in _STATE.items():
+        try:
+            same = (obj == saved)
+        except Exception:
+            same = False
+        if same is True: continue
+        if isinstance(obj, dict): obj.clear(); obj.update(saved)
+        elif isinstance(obj, list): obj[:] = saved
+        elif isinstance(obj, set): obj.clear(); obj.update(saved)
+
+
 # ---------------------------------------------------------------- running
 def concrete_residuals(obs, tol=1e-6):
     """an obligation is violated concretely when its residual exceeds 1e-6 of its own term magnitudes AND 1e-9 of the largest
@@ -383,6 +428,7 @@ def run_symbolic(execute, cfg, mods, rounds=0, conj=False, symbolic_labels=False
     def body(ctx):
         V = SymV(ctx, symbolic_labels)
         holder['V'] = V
+        reset_module_state()
         try:
             obs = execute(cfg, V)
         except (Inconclusive, PathAbort, OutOfBound):
@@ -491,6 +537,7 @@ def run_concrete(execute, cfg, inputs, labelmap=None):
     """run the harness body on the UNPATCHED repository code with real numpy and concrete numbers"""
     core.CTX = None
     V = ConV(inputs, labelmap)
+    reset_module_state()
     try:
         obs = execute(cfg, V)
     except Exception as e:
